@@ -8,6 +8,9 @@ From Spl Require Judge.RunBroker.
 From Spl Require Judge.RunGrammar.
 From Spl Require Judge.RunSem.
 From Spl Require Judge.RunFmt.
+From Spl Require Judge.RunSemTok.
+From Spl Require Judge.RunNav.
+From Spl Require Judge.RunHover.
 From Spl Require Import Judge.DumpAst Model.Parser Model.ParserInc.
 
 Fixpoint take_bytes (n : N) (s : text) (fuel : nat) : option text :=
@@ -180,5 +183,18 @@ Definition judge_run (cmd : list N) : list N :=
   | 12 :: args => RunCodec.run_codec (2 :: args)
   | 13 :: args => RunCodec.run_codec (3 :: args)
   | 21 :: args => RunBroker.run_broker args
+  | 50 :: args => RunSemTok.run_semtok args
+  | 51 :: args => RunSemTok.run_completion args
+  | 40 :: args => RunHover.run_hover args
+  | 41 :: args => RunHover.run_sighelp args
+  | 42 :: args => RunHover.run_fold args
+  | 140 :: args => RunHover.run_batch args
+  | 30 :: args => RunNav.run_nav 30 args
+  | 31 :: args => RunNav.run_nav 31 args
+  | 32 :: args => RunNav.run_nav 32 args
+  | 33 :: args => RunNav.run_nav 33 args
+  | 34 :: args => RunNav.run_nav 34 args
+  | 35 :: args => RunNav.run_nav 35 args
+  | 36 :: args => RunNav.run_nav 36 args
   | _ => [4]
   end.
